@@ -73,8 +73,8 @@ def smoothed_box(c, batch_rank):
         dist = xv - cen
         ad = z3.If(dist >= 0, dist, -dist) - rad
         X = z3.If(ad < 0, 0, ad)
-        logn = -(X * X) / (2 * sv * sv) - dom_real.apply(ctx, "log", sv) - half_log_2pi
-        M = dom_real.apply(ctx, "log", 1 + (bv - av) / (dom_real.apply(ctx, "sqrt", 2 * dom_real.pi(ctx)) * sv))
+        logn = -dom_real.rdiv(ctx, X * X, 2 * sv * sv) - dom_real.apply(ctx, "log", sv) - half_log_2pi
+        M = dom_real.apply(ctx, "log", 1 + dom_real.rdiv(ctx, bv - av, dom_real.apply(ctx, "sqrt", 2 * dom_real.pi(ctx)) * sv))
         return logn - M
 
     want = mk_sum(term, d.t)
